@@ -38,9 +38,11 @@ def main():
             notes = json.load(open(d + "/notes.json"))
             head = reset()
             res["repo_head"] = head
-            rc, out = sh(f"git apply {d}/patch.diff")
+            patch = d + "/patch.ported.diff" if os.path.exists(d + "/patch.ported.diff") else d + "/patch.diff"
+            res["patch"] = os.path.basename(patch)
+            rc, out = sh(f"git apply {patch}")
             if rc != 0:
-                rc, out = sh(f"git apply --3way {d}/patch.diff")
+                rc, out = sh(f"git apply --3way {patch}")
                 res["applied"] = "3way" if rc == 0 else False
             else:
                 res["applied"] = True
